@@ -13,8 +13,30 @@ def pick_align(rnd, bias8=0.5):
     return rnd.choice(ALIGNS)
 
 
+import threading
+
+
+class _Bias(threading.local):
+    pad = False      # arrays of elements whose alignment exceeds their size (padding between elements)
+
+    def __getitem__(self, k):
+        return getattr(self, k)
+
+    def __setitem__(self, k, v):
+        setattr(self, k, v)
+
+
+BIAS = _Bias()
+
+
 def gen_int(rnd, signed=None, enum_ok=True):
     signed = rnd.random() < 0.4 if signed is None else signed
+    if BIAS['pad'] and rnd.random() < 0.6:
+        size = rnd.choice([1, 2, 3, 4, 5, 8, 8, 12, 16])
+        mult = [a for a in ALIGNS if a > size]
+        ft = {'class': 'sint' if signed else 'uint', 'size': size,
+              'alignment': rnd.choice([a for a in mult if a % size == 0] or mult) if rnd.random() < 0.7 else rnd.choice(mult)}
+        return ft
     r = rnd.random()
     if r < 0.35:
         size = rnd.choice([8, 16, 32, 64])
@@ -63,14 +85,14 @@ def gen_scalar(rnd, allow_str=True):
 
 
 def gen_elem(rnd, depth=0):
-    if depth < 3 and rnd.random() < 0.25:
+    if depth < 3 and rnd.random() < (0.45 if BIAS['pad'] else 0.25):
         return {'class': 'static-array', 'length': rnd.choice([0, 1, 2, 2, 3, 5]),
                 'element-field-type': gen_elem(rnd, depth + 1)}
     return gen_scalar(rnd)
 
 
 def gen_member_ft(rnd):
-    if rnd.random() < 0.2:
+    if rnd.random() < (0.4 if BIAS['pad'] else 0.2):
         return {'class': 'dynamic-array', 'element-field-type': gen_elem(rnd, 1)}
     return gen_elem(rnd)
 
@@ -107,6 +129,16 @@ def gen_config(rnd, ndst=None, profile='layout'):
 
 def gen_config_tree(rnd, ndst=None, profile='layout'):
     """Returns (configuration node as plain dicts/lists, info)."""
+    BIAS['pad'] = profile.endswith('-pad')
+    if BIAS['pad']:
+        profile = profile[:-4]
+    try:
+        return _gen_config_tree(rnd, ndst, profile)
+    finally:
+        BIAS['pad'] = False
+
+
+def _gen_config_tree(rnd, ndst, profile):
     ndst = ndst or rnd.choice([1, 1, 2, 3])
     native = rnd.random() < 0.6
     tt = {}
